@@ -133,7 +133,7 @@ theorem C15_parse_bare_test {g : Nat} (hb : re[ix]? = some b) (hgt : isGroupTest
 
 /-- an expression as condition with no body is the error "expected conditional …" — every general
     condition (the byte after `(?(` does not start a group-test spelling), also one that is a
-    back-reference expression such as `(?(\\1))` (fix F21), and anything that is not a reference -/
+    back-reference expression such as `(?(\1))` (fix F21), and anything that is not a reference -/
 theorem C15_parse_bare_expr (hb : re[ix]? = some b)
     (hcond : condPart isAlnum f re st ix d b = .ok (next, condition, st1))
     (hnb : isGroupTest b = false ∨ ∀ g, condition ≠ .backref g)
@@ -260,6 +260,80 @@ theorem C15_cond_expr (isAlnum : Char → Bool) {re : Bytes} (f : Nat) (st : PSt
   have e3 : (b == ch '<') = false := by simpa using h3
   simp [condPart, h1, e2, e3]
 
+/-! ### fix F21: only the three group-test spellings are turned into the group test -/
+
+/-- the byte after `(?(` is not a digit, `'` or `<`: a general condition -/
+theorem isGroupTest_eq_false {b : Nat} (h1 : isDigit b = false) (h2 : b ≠ ch '\'') (h3 : b ≠ ch '<') :
+    isGroupTest b = false := by
+  have e2 : (b == ch '\'') = false := by simpa using h2
+  have e3 : (b == ch '<') = false := by simpa using h3
+  simp [isGroupTest, h1, e2, e3]
+
+/-- `\` does not start a group-test spelling: `(?(\1)…`, `(?(\k<n>)…` are general conditions -/
+theorem isGroupTest_backslash : isGroupTest (ch '\\') = false := by decide
+
+theorem Res.bind_eq_ok {α β : Type} {x : Res α} {f : α → Res β} {r : β} (h : (x >>= f) = .ok r) :
+    ∃ a, x = .ok a ∧ f a = .ok r := by
+  cases x <;> first | exact ⟨_, rfl, h⟩ | cases h
+
+/-- **a general condition is never rewritten** (fix F21): when the byte after `(?(` is not a digit,
+    `'` or `<`, whatever `parse_conditional` returns is the tree `condition` that `parse_re` returned
+    for the condition — alone (body without content) or as the condition of the `Conditional` —
+    also when `condition` is a back-reference expression `Backref(g)`.  The rewriting to
+    `BackrefExistsCondition(g)` happens only in the three group-test spellings
+    (`C15_parse_forms` with `isGroupTest b = true`). -/
+theorem C15_general_condition_kept (isAlnum : Char → Bool) {re : Bytes} {f : Nat} {st st1 st' : PState}
+    {ix d b next after : Nat} {condition e : Expr}
+    (hb : re[ix]? = some b) (h1 : isDigit b = false) (h2 : b ≠ ch '\'') (h3 : b ≠ ch '<')
+    (hcond : parseRe isAlnum f re st ix d = .ok (next, condition, st1))
+    (h : parseConditional isAlnum (f + 1) re st ix d = .ok (after, e, st')) :
+    e = condition ∨ ∃ y n, e = .cond condition y n := by
+  have hlt := lt_size_of_get hb
+  have hge : ¬ (ix ≥ re.size) := by omega
+  have e2 : (b == ch '\'') = false := by simpa using h2
+  have e3 : (b == ch '<') = false := by simpa using h3
+  rw [parseConditional] at h
+  simp only [hge, ↓reduceIte, byteAt, hb, Res.ok_bind, h1, e2, e3, Bool.false_eq_true, hcond,
+    Bool.or_false] at h
+  obtain ⟨next2, hc1, h⟩ := Res.bind_eq_ok h
+  obtain ⟨⟨end_, child, st2⟩, hre, h⟩ := Res.bind_eq_ok h
+  simp only at h
+  split at h
+  · cases h
+  · obtain ⟨br, hbr, h⟩ := Res.bind_eq_ok h
+    obtain ⟨after', hc2, h⟩ := Res.bind_eq_ok h
+    split at h <;> simp only [Res.ok.injEq, Prod.mk.injEq] at h <;> obtain ⟨_, rfl, _⟩ := h
+    · exact .inl rfl
+    · exact .inr ⟨_, _, rfl⟩
+
+/-- the same for the group-test spellings, for contrast: there a reference `Backref(g)` read as
+    condition never survives — the result is `BackrefExistsCondition(g)`, alone or as the condition -/
+theorem C15_group_test_rewritten (isAlnum : Char → Bool) {re : Bytes} {f : Nat} {st st1 st' : PState}
+    {ix d b next after g : Nat} {e : Expr}
+    (hb : re[ix]? = some b) (hgt : isGroupTest b = true)
+    (hcond : condPart isAlnum f re st ix d b = .ok (next, .backref g, st1))
+    (h : parseConditional isAlnum (f + 1) re st ix d = .ok (after, e, st')) :
+    e = .backrefExists g ∨ ∃ y n, e = .cond (.backrefExists g) y n := by
+  have hlt := lt_size_of_get hb
+  have hge : ¬ (ix ≥ re.size) := by omega
+  unfold condPart at hcond
+  unfold isGroupTest at hgt
+  rw [parseConditional] at h
+  simp only [hge, ↓reduceIte, byteAt, hb, Res.ok_bind, hcond, hgt] at h
+  obtain ⟨next2, hc1, h⟩ := Res.bind_eq_ok h
+  obtain ⟨⟨end_, child, st2⟩, hre, h⟩ := Res.bind_eq_ok h
+  simp only at h
+  split at h
+  · obtain ⟨after', hc2, h⟩ := Res.bind_eq_ok h
+    simp only [Res.ok.injEq, Prod.mk.injEq] at h
+    obtain ⟨_, rfl, _⟩ := h
+    exact .inl rfl
+  · obtain ⟨br, hbr, h⟩ := Res.bind_eq_ok h
+    obtain ⟨after', hc2, h⟩ := Res.bind_eq_ok h
+    split at h <;> simp only [Res.ok.injEq, Prod.mk.injEq] at h <;> obtain ⟨_, rfl, _⟩ := h
+    · exact .inl rfl
+    · exact .inr ⟨_, _, rfl⟩
+
 /-! ### how `parse_group` gets there -/
 
 /-- `(?(` is a conditional: `parse_group` at the `(` hands over to `parse_conditional` just after
@@ -304,6 +378,52 @@ example :
     (isOkVal_sound (by decide +kernel))
     (isOk3_sound (by decide +kernel)) (by omega) rfl (isOkVal_sound (by decide +kernel))
 
+/-- the same for the general condition `\\1` of `(a)(?(\\1)b|c)` (fix F21): the hypotheses of
+    `C15_parse_yes_no` and of `C15_general_condition_kept` hold there, the condition stays
+    `Backref(1)` -/
+example :
+    parseConditional (fun c => c.isAlphanum) 51 (bytesOf "(a)(?(\\1)b|c)".toList) st0 6 1 =
+      .ok (13, .cond (.backref 1) (.literal ['b'] false) (.literal ['c'] false),
+        { st1 with lastReHadAlt := true }) :=
+  C15_parse_yes_no _ (b := ch '\\') (next := 8) (next2 := 9) (end_ := 12) (st1 := st1)
+    (condition := .backref 1)
+    (by decide +kernel)
+    (by rw [C15_cond_expr _ _ _ (by decide) (by decide) (by decide)]
+        exact isOk3_sound (by decide +kernel))
+    (isOkVal_sound (by decide +kernel))
+    (isOk3_sound (by decide +kernel)) (by omega) rfl (isOkVal_sound (by decide +kernel))
+
+example {after : Nat} {e : Expr} {st' : PState}
+    (h : parseConditional (fun c => c.isAlphanum) 51 (bytesOf "(a)(?(\\1)b|c)".toList) st0 6 1 =
+      .ok (after, e, st')) : e = .backref 1 ∨ ∃ y n, e = .cond (.backref 1) y n :=
+  C15_general_condition_kept _ (b := ch '\\') (next := 8) (st1 := st1) (by decide +kernel)
+    (by decide) (by decide) (by decide) (isOk3_sound (by decide +kernel)) h
+
+/-! ### fix F21 on concrete patterns -/
+
+/-- **`(?(\1)yes|no)` tries `\1` as an expression** (fix F21): the pattern `(a)(?(\1)b|c)` parses to a
+    `Conditional` whose condition is the back-reference expression `Backref(1)`; `(a)(?(1)b|c)`
+    to the group test `BackrefExistsCondition(1)` -/
+theorem C15_general_backref_condition :
+    parseStr (fun c => c.isAlphanum) "(a)(?(\\1)b|c)".toList false =
+      .ok ⟨.concat [.group 0 (.literal ['a'] false),
+        .cond (.backref 1) (.literal ['b'] false) (.literal ['c'] false)], [1], []⟩ ∧
+    parseStr (fun c => c.isAlphanum) "(a)(?(1)b|c)".toList false =
+      .ok ⟨.concat [.group 0 (.literal ['a'] false),
+        .cond (.backrefExists 1) (.literal ['b'] false) (.literal ['c'] false)], [1], []⟩ :=
+  ⟨isTree_sound (by decide +kernel), isTree_sound (by decide +kernel)⟩
+
+/-- `(?(\1))` — a general condition without a body — is the error "expected conditional to be a
+    backreference or at least an expression for when the condition is true" at the closing `)`
+    (byte 9), as for every expression; the bare group test `(?(1))` is still
+    `BackrefExistsCondition(1)` -/
+theorem C15_general_backref_bare :
+    parseStr (fun c => c.isAlphanum) "(a)(?(\\1))".toList false =
+      .err (.general .expectedConditional) 9 ∧
+    parseStr (fun c => c.isAlphanum) "(a)(?(1))".toList false =
+      .ok ⟨.concat [.group 0 (.literal ['a'] false), .backrefExists 1], [1], []⟩ :=
+  ⟨isErr_sound (by decide +kernel), isTree_sound (by decide +kernel)⟩
+
 /-! ### Tests by evaluation of the whole parser (concrete patterns, not the general claim) -/
 
 /-- shorthand for the tests -/
@@ -326,6 +446,16 @@ example : P "(?<n>a)(?(<n>)b|c)" =
   isTree_sound (by decide +kernel)
 example : P "(?<n>a)(?('n')b)" =
     .ok ⟨.concat [.group 0 a, .cond (.backrefExists 1) b .empty], [1], [([110], 1)]⟩ :=
+  isTree_sound (by decide +kernel)
+-- fix F21: a back-reference expression as condition is a general condition
+example : P "(a)(?((?:\\1))b|c)" = .ok ⟨.concat [.group 0 a, .cond (.backref 1) b c], [1], []⟩ :=
+  isTree_sound (by decide +kernel)
+example : P "(a)(?(\\1)b)" = .ok ⟨.concat [.group 0 a, .cond (.backref 1) b .empty], [1], []⟩ :=
+  isTree_sound (by decide +kernel)
+example : P "(?<n>a)(?(\\k<n>)b|c)" =
+    .ok ⟨.concat [.group 0 a, .cond (.backref 1) b c], [1], [([110], 1)]⟩ :=
+  isTree_sound (by decide +kernel)
+example : P "(a)(?(\\1)(?i))" = .ok ⟨.concat [.group 0 a, .backref 1], [1], []⟩ :=
   isTree_sound (by decide +kernel)
 -- a general condition
 example : P "(?(a)b|c)" = .ok ⟨.cond a b c, [], []⟩ := isTree_sound (by decide +kernel)
